@@ -43,7 +43,7 @@ func TestC13(t *testing.T) {
 		}
 		c.FP(sig, o.Limit, fmt.Sprint(o.Reset), regime, bucket(ov), bucket(rs), h.Script)
 		c.Nontrivial(ov > 0 || rs > 0)
-		c.Sample(map[string]any{"signal": sig, "options": o.String(), "script": h.Script, "batches": len(h.Batches), "overflows": ov, "resets": rs,
+		c.Sample(map[string]any{"signal": sig, "options": o.String(), "script": h.Script, "batches": h.Len(), "overflows": ov, "resets": rs,
 			"max_dictionary_len": fm.MaxDictLen, "limit": limitStr(o.LimitValue())})
 	}
 	// 8-bit limit: many cycles are cheap
@@ -72,7 +72,7 @@ func TestC13(t *testing.T) {
 			nb = e.Pick(8, 12)
 		}
 		if high {
-			n, nb = 60000, 10 // pool grows by n/8 per batch; a batch must stay <= 65,535 items (domain)
+			n, nb = 30000, 12 // pool grows by n/4 per batch: 67,500 values after nine batches
 			o.Reset = []float64{0.3, 1}[(c.Idx/3)%2]
 		}
 		h := RampHistory(c.R, sig, nb, n, high)
